@@ -617,7 +617,7 @@ func runLint(which string) {
 		}
 	case "L19":
 		sites, hits = montgomeryLimbReads(fns)
-	case "SCAN", "ABS", "ZEROUSE", "ARRIDX", "WIDTH":
+	case "SCAN", "ABS", "ZEROUSE", "ARRIDX", "WIDTH", "SUBALIAS", "ASMBOUNDS":
 		registerScanProgram(p)
 		re := regexp.MustCompile(os.Getenv("GCV_FUNCS"))
 		for _, fn := range fns {
@@ -628,6 +628,12 @@ func runLint(which string) {
 			var h []Finding
 			if which == "SCAN" {
 				n, h = scanLoopBounds(p, fn)
+			} else if which == "SUBALIAS" {
+				if fn.Parent() == nil && fn.Object() != nil && fn.Object().Exported() {
+					n, h = subObjectHazards(p, sharedEffects(p), fn)
+				}
+			} else if which == "ASMBOUNDS" {
+				n, h = asmCallBounds(p, fn)
 			} else if which == "WIDTH" {
 				n, h = narrowLengthArithmetic(p, fn)
 			} else if which == "ARRIDX" {
